@@ -455,11 +455,14 @@ def new_ltf_plan(**args):
         
         # The bmin constraint must always be respected
         if fbin < bmin:
-            fres = fi / bmin
-            dftlen = int(fs/fres) # Recalculate L if bmin was enforced
-            fbin = bmin
+            # Smallest L that puts fi at or above bin bmin (fi >= fmin keeps it <= N)
+            dftlen = min(N, int(np.ceil(bmin * fs / fi)))
             nseg = int(np.round((N - dftlen) / (xov * dftlen) + 1))
             nseg = min(nseg, N - dftlen + 1)
+            if nseg == 1:
+                dftlen = N
+            fres = fs / dftlen
+            fbin = fi / fres
 
 
         # --- C. Store results and update state for the next iteration ---
